@@ -506,9 +506,19 @@ def e4(ck: Check) -> None:
             facts = fm.facts(e.cfgn)
             for test, pol, b in facts:
                 test, pol = strip_not(test, pol)
-                if not pol or b.loop is not None:
+                if b.loop is not None:
                     continue
                 tnode = fm.cfg.nodes[next(iter(fm.cfg.g.predecessors(b.id)))]
+                if not pol:
+                    # `if not xs:` / the else arm of `if xs:` -- emptiness by truth value, which None shares: a guard when
+                    # xs holds the result of a search on some path
+                    if isinstance(test, ast.Name) and test.id not in fm.f.params() and any(
+                            d_.kind == "stmt" and isinstance(d_.ast, (ast.Assign, ast.AnnAssign)) and isinstance(d_.ast.value, ast.Call)
+                            and callee_name(d_.ast.value) in ("node_attractor_candidates", "node_attractor_seeds", "compute_attractor_candidates")
+                            for d_ in fm.cfg.reaching_defs(test.id, tnode)):
+                        test = ast.copy_location(ast.UnaryOp(ast.Not(), test), test)
+                    else:
+                        continue
                 # configuration flags (parameters) and structural tests are not evidence guards
                 names = {n.id for n in ast.walk(test) if isinstance(n, ast.Name)}
                 if _is_config_test(fm, test, tnode):
